@@ -19,16 +19,20 @@ inductive Kind where
   | logoutLocal
   | logout
   | frontchannel   -- front-channel logout for this session's sid
+  | relogin        -- callback of a NEW login whose session lands on the same store key (the provider re-uses the sid, e.g. after a local logout)
   deriving Repr, DecidableEq
 
 inductive PC where
   | start | get | lock | reread | idp | update | unlock | del | done
+  | code | write   -- relogin: redeem the authorization code; write the new session (SET … EX)
   deriving Repr, DecidableEq
 
 structure Sess where
   gen : Nat          -- generation of the (access, refresh) token pair stored
   fresh : Bool       -- refreshed during this schedule: the cooldown is running
   hasTtl : Bool      -- the key carries an expiry
+  owner : Nat := 0   -- 0 = the session whose cookie every non-relogin process presents; ≠ 0 = a newer login's session under the same key
+                     -- (sealed with another data key: unreadable with the old cookie, session_reader.go:getForTicket → ErrInvalid)
   deriving Repr, DecidableEq
 
 structure Proc where
@@ -45,6 +49,18 @@ structure St where
   idpCur : Nat               -- generation of the refresh token the provider currently honours
   presented : List Nat       -- refresh-token generations presented to the provider, oldest first
   procs : Pid → Proc
+  createLocks : Bool := true -- session_manager.go:Create takes the per-key lock around its write (false = the tree before fix 078aa22, kept for the witness)
+
+/-- what a holder of the OLD cookie can read: the entry, if it is still its own session -/
+def mine : Option Sess → Option Sess
+  | some v => if v.owner = 0 then some v else none
+  | none => none
+
+theorem mine_some {se : Option Sess} {v : Sess} (h : mine se = some v) : se = some v ∧ v.owner = 0 := by
+  unfold mine at h
+  split at h
+  · split at h <;> simp_all
+  · simp at h
 
 def setProc (s : St) (p : Pid) (x : Proc) : St := { s with procs := fun q => if q = p then x else s.procs q }
 
@@ -54,15 +70,17 @@ def setProc (s : St) (p : Pid) (x : Proc) : St := { s with procs := fun q => if 
 @[simp] theorem setProc_lock (s : St) (p : Pid) (x : Proc) : (setProc s p x).lock = s.lock := rfl
 @[simp] theorem setProc_idpCur (s : St) (p : Pid) (x : Proc) : (setProc s p x).idpCur = s.idpCur := rfl
 @[simp] theorem setProc_presented (s : St) (p : Pid) (x : Proc) : (setProc s p x).presented = s.presented := rfl
+@[simp] theorem setProc_createLocks (s : St) (p : Pid) (x : Proc) : (setProc s p x).createLocks = s.createLocks := rfl
 
 /-- holding (or about to release) the refresh lock -/
 def inCrit : PC → Bool
-  | .reread | .idp | .update | .unlock => true
+  | .reread | .idp | .update | .unlock | .write => true
   | _ => false
 
 /-- first command of each kind of request -/
 def startNext : Kind → PC
   | .frontchannel => .del
+  | .relogin => .code
   | _ => .get
 
 /-- after the first read: (next pc, status if finished) -/
@@ -75,6 +93,7 @@ def getNext (k : Kind) (se : Option Sess) : PC × Nat :=
   | .logout, some _ => (.del, 302)
   | .logout, none => (.done, 302)
   | .frontchannel, _ => (.del, 0)
+  | .relogin, _ => (.done, 0)                                               -- (a relogin never reads)
   | .refresh, none => (.done, 401)
   | .proxy, none => (.done, 200)
   | .refresh, some v => if v.fresh then (.done, 200) else (.lock, 0)      -- on cooldown: nothing to refresh
@@ -85,13 +104,17 @@ def step (s : St) (p : Pid) : St × String :=
   let x := s.procs p
   match x.pc with
   | .start => (setProc s p { x with pc := startNext x.kind }, "START")
-  | .get => (setProc s p { x with pc := (getNext x.kind s.sess).1, status := (getNext x.kind s.sess).2 }, "GET session")
+  | .get => (setProc s p { x with pc := (getNext x.kind (mine s.sess)).1, status := (getNext x.kind (mine s.sess)).2 }, "GET session")
+  | .code => (setProc s p { x with pc := if s.createLocks then .lock else .write }, "IDP authorization_code")
   | .lock =>
     match s.lock with
-    | none => ({ setProc s p { x with pc := .reread } with lock := some p }, "LOCK")
+    | none => ({ setProc s p { x with pc := if x.kind = .relogin then .write else .reread } with lock := some p }, "LOCK")
     | some _ => (s, "LOCK")                                                                       -- not obtained: poll again
+  | .write =>   -- Create: SET key value EX lifetime — replaces whatever is there; the new session has its own data key
+    ({ setProc s p { x with pc := if s.createLocks then .unlock else .done, status := 302 } with sess := some { gen := 0, fresh := false, hasTtl := true, owner := p + 1 } },
+      "SET-EX session")
   | .reread =>
-    match s.sess with
+    match mine s.sess with
     | none => (setProc s p { x with pc := .unlock, status := if x.kind = .proxy then 200 else 401 }, "GET session")
     | some v =>
       if v.fresh then (setProc s p { x with pc := .unlock, status := 200 }, "GET session")      -- already refreshed by someone else
@@ -102,7 +125,8 @@ def step (s : St) (p : Pid) : St × String :=
     else (setProc s' p { x with pc := .unlock, status := 401 }, "IDP refresh_token")          -- rejected: invalid at the provider
   | .update =>
     match s.sess with
-    | some v => ({ setProc s p { x with pc := .unlock, status := 200 } with sess := some { v with gen := x.newGen, fresh := true } }, "SETXX-KEEPTTL session")
+    | some v =>   -- SET XX: succeeds on ANY existing value, and what it writes is the old session sealed with the old data key
+      ({ setProc s p { x with pc := .unlock, status := 200 } with sess := some { v with gen := x.newGen, fresh := true, owner := 0 } }, "SETXX-KEEPTTL session")
     | none => (setProc s p { x with pc := .unlock, status := if x.kind = .proxy then 200 else 401 }, "SETXX-KEEPTTL session")   -- update only if present
   | .unlock =>
     ({ setProc s p { x with pc := .done } with lock := if s.lock = some p then none else s.lock }, "UNLOCK")
@@ -130,6 +154,6 @@ def runAll (s : St) (evs : List Ev) : St := evs.foldl apply s
 
 /-- initial state: a session of generation g0 with an expiry, nobody holds the lock, every process about to start -/
 def init (kinds : Pid → Kind) (g0 : Nat) : St :=
-  { sess := some ⟨g0, false, true⟩, lock := none, idpCur := g0, presented := [], procs := fun p => { kind := kinds p } }
+  { sess := some { gen := g0, fresh := false, hasTtl := true }, lock := none, idpCur := g0, presented := [], procs := fun p => { kind := kinds p } }
 
 end Ww.Model.Sched
